@@ -781,6 +781,12 @@ func (s *baseServer) handleInitialImpl(p receivedPacket, hdr *wire.Header) error
 			s.refuseNewConn(p, hdr)
 			return nil
 		}
+		// clip the limits and check the versions, as for the config passed to Listen
+		if err := validateConfig(conf); err != nil {
+			s.logger.Debugf("Rejecting new connection due to an invalid config returned by GetConfigForClient: %s", err)
+			s.refuseNewConn(p, hdr)
+			return nil
+		}
 		config = populateConfig(conf)
 	}
 
